@@ -538,6 +538,11 @@ def main(run):
     for i in run.mine({"quick": 60, "thorough": 1500}[run.tier]):
         k_cli(run, run.case("cli", 10**6 + i, tool="traj", force={"use_ref": True, "motion_filter": i % 3 != 2, "downsample": i % 3 == 2,
                                                                   "merge": False}))
+    for i in run.mine({"quick": 40, "thorough": 1000}[run.tier]):
+        # merging the given trajectories (the reference is not one of them), files laid out per run
+        k_cli(run, run.case("cli", 2 * 10**6 + i, tool="traj", fmt=["tum", "euroc"][i % 2],
+                            force={"use_ref": True, "merge": True, "sync": False, "align": False, "align_origin": False,
+                                   "correct_scale": False}))
     run.need("evo_traj runs with filtering of trajectories and reference judged", "evo_ape runs with time cropping judged", "downsample: count == min(N, count)", "downsample: evenly spaced by index",
              "downsample: last pose kept", "downsample: N<1 refused",
              "motion filter: kept => threshold reached",
